@@ -294,6 +294,8 @@ def _r3_fixture(ck):
 def run(ck):
     _dead_shift_rules(ck)
     ck.rule("R4", "a slice bound `args.N - k` is reached only where args.N >= k", floor=4)
+    ck.rule("R7", "the two operands of a guest string comparison are read under the same length bound", floor=2)
+    _symmetric_compare_rules(ck)
     ck.rule("R5", "a NUL-terminated copy bounded by a guest length writes at most that many characters", floor=5)
     ck.rule("R1", "the two halves of a 64-bit argument enter a sum with the same sign; results are returned low then high", floor=3)
     ck.rule("R2", "a find/rfind result is tested against -1 before it is used in arithmetic", floor=3)
@@ -456,3 +458,29 @@ def run(ck):
                 ck.ob("R3", "%s:while %s" % (q, norm(w.test)[:50]), ok, m.where(w),
                       "the loop condition indexes with `%s` before any comparison of `%s` with the length: a zero length raises "
                       "IndexError (the bound is tested only after the increment)" % (idx, idx))
+
+
+def _symmetric_compare_rules(ck):
+    """R7: strcmp / strncmp / memcmp-like helpers compare two guest buffers: both are fetched with the same getter and the same bound
+    (the caller's size, or none).  A bound of one operand taken from the length of the other (`get_c_str(p1, len(s2))`) cuts the first
+    string right before the character that decides the result when the second is its proper prefix."""
+    from sa.astutil import Resolver
+    n = 0
+    for rel in FILES:
+        if not ck.repo.exists(rel):
+            continue
+        m = ck.repo.mod(rel)
+        for q, fn in sorted(m.funcs.items()):
+            for c in [x for x in walk_body(fn) if isinstance(x, ast.Call) and callee_attr(x) == "cmp_elts" and len(x.args) == 2]:
+                res = Resolver(fn)
+                defs = [res.unique_def(a.id) if isinstance(a, ast.Name) else a for a in c.args]
+                if not all(isinstance(d, ast.Call) for d in defs):
+                    continue
+                n += 1
+                g0, g1 = callee_attr(defs[0]), callee_attr(defs[1])
+                b0 = [norm(a) for a in defs[0].args[1:]] + sorted("%s=%s" % (k.arg, norm(k.value)) for k in defs[0].keywords)
+                b1 = [norm(a) for a in defs[1].args[1:]] + sorted("%s=%s" % (k.arg, norm(k.value)) for k in defs[1].keywords)
+                ck.ob("R7", "%s:compare-operands" % q, g0 == g1 and b0 == b1, m.where(c),
+                      "the compared buffers are read as %s(%s) and %s(%s): different getters or bounds - one operand can be cut before the "
+                      "position that decides the comparison" % (g0, ", ".join(b0), g1, ", ".join(b1)))
+    ck.ob("R7", "compare-sites-seen", n >= 2, "miasm/os_dep", "fewer guest string comparisons than on the pinned tree (%d)" % n)
